@@ -112,7 +112,7 @@ def run(ctx):
         )
         return s
 
-    N = ctx.pick(9_000, 45_000)
+    N = ctx.pick(9_000, 25_000)
     stats = {}
     for i, rng in ctx.cases(N, 'main'):
         t = G.gen_type(rng, depth=rng.choice([0, 1, 2, 2, 3, 3, 4]), mode='value')
